@@ -9,20 +9,18 @@ Nothing here refers to the model.
 -/
 namespace Got.Spec.Codec
 
-abbrev Byte := BitVec 8
-
 /-- the `w` low-order base-256 digits of `n`, least significant first -/
-def leBytes : Nat → Nat → List Byte
+def leBytes : Nat → Nat → List (BitVec 8)
   | 0, _ => []
   | w + 1, n => BitVec.ofNat 8 (n % 256) :: leBytes w (n / 256)
 
 /-- value of a little-endian digit string -/
-def leValue : List Byte → Nat
+def leValue : List (BitVec 8) → Nat
   | [] => 0
   | b :: bs => b.toNat + 256 * leValue bs
 
 /-- unsigned LEB128 -/
-def leb128 (n : Nat) : List Byte :=
+def leb128 (n : Nat) : List (BitVec 8) :=
   if n < 128 then [BitVec.ofNat 8 n]
   else BitVec.ofNat 8 (n % 128 + 128) :: leb128 (n / 128)
 decreasing_by omega
@@ -31,6 +29,6 @@ decreasing_by omega
 def twoCompl (w : Nat) (z : Int) : Nat := (z % (2 ^ w : Nat)).toNat
 
 /-- length-prefixed byte string -/
-def prefixed (data : List Byte) : List Byte := leb128 data.length ++ data
+def prefixed (data : List (BitVec 8)) : List (BitVec 8) := leb128 data.length ++ data
 
 end Got.Spec.Codec
